@@ -731,6 +731,17 @@ class Check:
             else:
                 self.inconclusive.append((ob.name, "solver model did not reproduce on the real code: " + str(rp.get("error") or rp.get("note") or "")))
         else:
+            # the solver gave up: an obligation may ask for its replay candidates to be tried on the real code anyway.  A failure of the real
+            # code found this way is reported (it is a fact about the code), but the obligation is never *discharged* this way.
+            if getattr(ob, "probe_on_unknown", False) and ob.custom_replay is not None:
+                try:
+                    rp = ob.custom_replay(ob, None, self.rng)
+                except Exception as ex:       # noqa: BLE001
+                    rp = dict(reproduced=False, error=f"{type(ex).__name__}: {ex}")
+                if rp.get("reproduced"):
+                    rp["note"] = (rp.get("note", "") + " [solver verdict unknown within its time limit; found by running the obligation's replay candidates on the real code]").strip()
+                    self.violation(ob.signature, ob.name, rp)
+                    return
             self.inconclusive.append((ob.name, r.detail or f"solver verdict {r.verdict} ({r.info.get('tried')})"))
 
     def violation(self, signature, what, replay):
